@@ -127,16 +127,22 @@ def cross_check(obls, timeout_s=10):
 
 def _work(job):
     """worker: (smt2 text, timeout ms, show exprs, want sat?) -> (result, seconds, model dict, backend, raw)"""
-    smt2, timeout_ms, show = job
+    smt2, timeout_ms, show = job[:3]
+    retries = job[3] if len(job) > 3 else 0
     import z3 as z
     t = time.time()
-    so = z.Solver(ctx=z.Context())          # a fresh context per query: nothing of the queries decided earlier by this worker influences the search
-    so.set("timeout", int(timeout_ms))
-    try:
-        so.from_string(smt2)
-        r = so.check()
-    except z.Z3Exception as ex:
-        return ("unknown", time.time() - t, None, "z3", f"z3 exception: {ex}")
+    for attempt in range(1 + retries):
+        so = z.Solver(ctx=z.Context())          # a fresh context per query: nothing of the queries decided earlier by this worker influences the search
+        so.set("timeout", int(timeout_ms))
+        if attempt:
+            so.set("random_seed", 7 * attempt); so.set("seed", 7 * attempt) if False else None
+        try:
+            so.from_string(smt2)
+            r = so.check()
+        except z.Z3Exception as ex:
+            return ("unknown", time.time() - t, None, "z3", f"z3 exception: {ex}")
+        if r != z.unknown:
+            break
     dt = time.time() - t
     if r == z.unsat:
         return ("unsat", dt, None, "z3", "unsat")
@@ -171,7 +177,9 @@ def pool():
 def discharge(obls, timeout_s=20):
     """decide every undecided obligation in place"""
     todo = [o for o in obls if o.verdict is None]
-    jobs = [(o.smt2, min(timeout_s, getattr(o, "timeout_s", timeout_s)) * 1000, getattr(o, "_show_smt", [])) for o in todo]      # an obligation may ask for LESS time (best-effort explorations)
+    # an obligation may ask for LESS time (best-effort explorations) and for further attempts under other solver seeds (quantified invariants: the search
+    # order decides whether the needed instances are found in time; a second seed turns a rare slow run into a fast one)
+    jobs = [(o.smt2, min(timeout_s, getattr(o, "timeout_s", timeout_s)) * 1000, getattr(o, "_show_smt", []), getattr(o, "retries", 0)) for o in todo]
     if not jobs:
         return obls
     if len(jobs) <= 2 or os.environ.get("PYVC_SERIAL"):
